@@ -1,5 +1,6 @@
 CONSTANTS
   NS = 2
+  Modes = {"services", "manager"}
   ReaderFair = TRUE
 SPECIFICATION Spec
 INVARIANTS TypeOK ReportedAtMostOnce NeverSendOnClosed
